@@ -1,6 +1,6 @@
 import Proofs.Delta
 import Proofs.DeltaRoot
-import Proofs.DeltaDict
+import Proofs.DeltaFlat
 import Properties.C02
 /-!
 # C01 — applying `Delta(DeepDiff(t1, t2))` to `t1` reproduces `t2`
